@@ -29,7 +29,11 @@ RULE = (
     "audit tripwire fired, sys.monitoring CALL events in flow/record/selector.py show no canary-tagged callable called "
     "by interpreter code; forbidden shape in a non-evaluated position => the same except that returning is accepted; "
     "allowed expression that the reference evaluator finds defined => must not raise; every case: deep observation of "
-    "the record before == after."
+    "the record before == after.  Family 'refused-call-arguments' (strict): forbidden target spellings x argument shapes "
+    "{helper call on a canary, str()/repr(), any()/all() generator over a canary, comparison, arithmetic, boolean, "
+    "field-type constructor, nested refused call} x {positional, second positional, keyword, both} inside contexts that do "
+    "not touch the record: must raise AND the canaries log no event of any kind (named method or special method "
+    "__str__/__repr__/__iter__/__len__/__bool__/__eq__../__add__../__contains__/__hash__/__format__), whoever the caller."
 )
 ASSUMPTIONS = [
     "a canary method called from the code of a documented helper function (lower/upper/field_*) or from a whitelisted "
@@ -190,6 +194,33 @@ for t in ["False and ({H})", "True or ({H})", "2 < 1 < ({H})", "any(({H}) for {v
     _ctx("dead", t, ev=False)
 CONTEXTS = _C
 
+# ---- refused call whose argument list contains allowed operations over canaries -----------------------------
+# "refused ... before anything is invoked": evaluating the arguments of a call that is going to be refused already runs
+# lower() / __str__ / __iter__ / __eq__ / __add__ of the values.  Targets are pure Name / Attribute spellings (reading the
+# target chain is attribute access, which is allowed) or non-name targets the interpreter cannot evaluate at all.
+ARG_TARGETS = [
+    ("attr-field", "r.s.detonate({A})"), ("attr-field", "r.o.fn({A})"), ("attr-field", "r.n.bit_length({A})"), ("attr-field", "r.l.append({A})"),
+    ("attr-field", "r.o.child.fn({A})"), ("name", "open({A})"), ("name", "getattr({A})"), ("name", "undefined_function({A})"),
+    ("attr-field", "str.upper({A})"), ("attr-field", "Type.string.detonate({A})"), ("attr-constant", '"abc".upper({A})'),
+    ("attr-subscript", "[r.s.detonate][0]({A})"), ("call-on-expression", "(r.s.detonate or None)({A})"), ("lambda", "(lambda a: a)({A})"),
+    ("genvar-callable", "any(f({A}) for f in [r.s.detonate])"), ("genvar-callable", "any(x.detonate({A}) for x in [r.t])"),
+    ("attr-field", "r.missing.detonate({A})"),
+]
+ARG_SHAPES = [
+    ("helper", "lower(r.s)"), ("helper", "upper(r.t)"), ("helper", 'field_contains(r, ["s"], ["a"])'), ("helper", 'field_equals(r, ["t"], ["other"])'),
+    ("helper", 'field_regex(r, ["s"], "A")'), ("str-repr", "str(r.s)"), ("str-repr", "repr(r.s)"), ("str-repr", "str(r.n)"), ("str-repr", "repr(r.l)"),
+    ("str-repr", "str(r.o)"), ("any-all", "any(x for x in r.l)"), ("any-all", "all(x for x in r.s)"), ("any-all", "any(x == 1 for x in r.k)"),
+    ("compare", "r.s == 1"), ("compare", "r.n < 2"), ("compare", '"a1" in r.l'), ("compare", "r.s != r.t"), ("compare", "r.o == 1"),
+    ("arith", "r.n + 1"), ("arith", 'r.s + "x"'), ("arith", "r.l + r.l"), ("arith", "r.n % 2"), ("arith", "r.s * 2"),
+    ("boolean", "r.s and 1"), ("boolean", "not r.n"), ("boolean", "r.k or 1"),
+    ("constructor", "net.ipaddress(r.s)"), ("constructor", "string(r.s)"),
+    ("nested-refused", "r.t.detonate(str(r.s))"), ("nested-refused", "r.o.fn(lower(r.s))"),
+]
+ARG_POSITIONS = [("positional", "{X}"), ("second-positional", "1, {X}"), ("keyword", "k={X}"), ("positional+keyword", "{X}, k={X}")]
+# contexts that do not touch the record themselves
+ARG_CONTEXTS = ["{H}", "({H}) == 1", "True and ({H})", "any(({H}) for q in [1, 2])", "str(({H}))", "1 + ({H})"]
+ARG_RECORDS = ("real-canary", "standin")
+
 # ---- allowed shapes (negative controls) ---------------------------------------------------------------
 CONTROLS = [
     "lower(r.s)", "upper(r.s)", "str(r.n)", "repr(r.s)", 'net.ipnetwork("10.0.0.0/8")', 'net.ipaddress("10.1.2.3") in net.ipnetwork("10.0.0.0/8")',
@@ -298,7 +329,7 @@ def selftest(ctx):
         if refselector.sandbox_forbidden(c):
             problems.append("policy model forbids control " + c)
     c = cn.CStr("x")
-    src = "c.detonate()\nc.__trip__\nc.upper()\n"
+    src = "c.detonate()\nc.__trip__\nc.upper()\nstr(c)\nc == 1\nc + 'y'\n[x for x in c]\nhash(c)\n"
     code = compile(src, cn.STATE.selector_file or "<none>", "exec")
     cn.arm()
     try:
@@ -306,6 +337,7 @@ def selftest(ctx):
     finally:
         log = cn.disarm()
     want = [("call", "CStr", "detonate", "interpreter"), ("dunder", "CStr", "__trip__", "interpreter"), ("call", "CStr", "upper", "interpreter")]
+    want += [("special", "CStr", n, "interpreter") for n in ("__str__", "__eq__", "__add__", "__iter__", "__hash__")]
     if [e[:4] for e in log] != want:
         problems.append("canary log self-test failed: %r" % (log,))
     if not ctx.state["cw"].active:
@@ -349,7 +381,18 @@ def generate(ctx):
             if ctx.mine(idx):
                 yield {"k": "direct", "expr": a, "rec": rk, "shape": a, "scat": "control-direct", "ctx": "bare#0", "ccat": "bare"}
             idx += 1
-    ctx.note("enumerated_space", {"shapes": len(SHAPES), "contexts": len(CONTEXTS), "controls": len(CONTROLS) + len(DIRECT_CONTROLS),
+    for tcat, target in ARG_TARGETS:
+        for acat, arg in ARG_SHAPES:
+            for pname, pos in ARG_POSITIONS:
+                call = target.replace("{A}", pos.replace("{X}", arg))
+                for ci, c in enumerate(ARG_CONTEXTS):
+                    for rk in ARG_RECORDS:
+                        if ctx.mine(idx):
+                            yield {"k": "hostile", "expr": c.replace("{H}", call), "ev": True, "rec": rk, "shape": "args:%s:%s" % (acat, pname),
+                                   "scat": tcat, "ctx": "argctx#%d" % ci, "ccat": "refused-call-arguments", "strict": True, "acat": acat, "pos": pname}
+                        idx += 1
+    ctx.note("enumerated_space", {"arg_targets": len(ARG_TARGETS), "arg_shapes": len(ARG_SHAPES), "arg_positions": len(ARG_POSITIONS),
+                                  "arg_contexts": len(ARG_CONTEXTS), "shapes": len(SHAPES), "contexts": len(CONTEXTS), "controls": len(CONTROLS) + len(DIRECT_CONTROLS),
                                   "records": len(RECORDS)} if ctx.shard == 0 else {})
     ctx.exhaustive = True  # the shapes x contexts x records table is run completely on every tier
     for i in range(ctx.scale(400, 9000)):
@@ -572,6 +615,17 @@ def run_case(ctx, case):
         ctx.violation(None if key != "dunder-name-resolved" else key,
                       "the interpreter read a double-underscore attribute the expression spells (canary log)",
                       detail=dict(detail, canary_log=bad_dunder[:6]))
+    if case.get("strict"):
+        # the expression is <context without record access>(<refused call>(<arguments over canaries>)): a refusal "before
+        # anything is invoked" leaves no canary event of any kind (reads of the target chain are attribute access)
+        touched = [e for e in log if e[0] in ("call", "special")]
+        ctx.event("strict_cases")
+        if touched:
+            ctx.violation("arguments-evaluated-before-refusal",
+                          "the arguments of a refused call were evaluated before the refusal (canary events: %s of a value)" % case.get("acat"),
+                          detail=dict(detail, position=case.get("pos"), canary_log=touched[:8]))
+        else:
+            ctx.event("strict_clean")
     watched_bad = []
     vids = value_ids(ctx, case["rec"])
     for code, c in calls:
@@ -641,6 +695,8 @@ def run_case(ctx, case):
 
     for e in log:
         ctx.event("canary:%s:%s%s" % (e[0], e[3], ":__class__" if e[2] == "__class__" else ""))
+    if case.get("strict"):
+        ctx.cell("args", case["acat"], case["pos"])
     ctx.cell(case["scat"], case["ccat"], case["rec"])
     ctx.nontrivial(expr, case["rec"])
     ctx.sample({"expression": expr, "record": case["rec"], "outcome": detail["outcome"], "evaluated_position": must_raise},
@@ -656,6 +712,8 @@ def finish(ctx):
         return
     ev = ctx.events
     ctx.require(ev["forbidden_in_evaluated_position"] > 0, "no forbidden shape in evaluated position was run")
+    ctx.require(ev["strict_cases"] > 0 and ev["canary:special:interpreter"] > 0,
+                "the refused-call-arguments family did not run, or no special method of a canary was ever observed")
     ctx.require(ev["control_accepted"] > 0, "no allowed control expression was accepted (everything refused?)")
     ctx.require(ev["canary:call:helper"] > 0, "no canary method was ever called by a helper function: canaries not reached")
     ctx.require(ev["canary:dunder:interpreter:__class__"] > 0, "the interpreter never touched a canary value")
